@@ -265,11 +265,27 @@ def run(report, p):
                     r6.check(norm(it.items[0].text[0]).endswith("." + want) and not (want == "hash_string" and norm(it.items[0].text[0]).endswith("structure_hash_string")), el.func, it.items[0].node, f"<{el.tag}> is written from `{norm(it.items[0].text[0])}`", construct=f"<{el.tag}> source")
     rd = p.funcs.get("ascmhl.hashlist_xml_parser.parse")
     st = [n for n in walk_no_nested(rd.node) if isinstance(n, ast.Assign) and isinstance(n.targets[0], ast.Attribute) and n.targets[0].attr == "structure_hash_string"]
+    if not st:
+        # the assignment is not in `parse` itself: made in a helper that receives the parser state (a reader structure this rule does not read); a store that sits
+        # elsewhere in the package is no evidence of a defect
+        elsewhere = [f_ for f_ in p.funcs.values() if f_.module is rd.module and f_ is not rd and any(isinstance(n, ast.Assign) and isinstance(n.targets[0], ast.Attribute) and n.targets[0].attr == "structure_hash_string" for n in walk_no_nested(f_.node))]
+        if elsewhere:
+            raise AnalysisError(f"manifest reader: the structure digest is assigned in {elsewhere[0].qual}, not in the reader's event loop; reader structure not modelled")
     r6.instance(rd, st[0] if st else rd.node, "reader structure assignment")
     okr = len(st) == 1 and norm(st[0].value) == "element.text"
     if okr:
         deps = [(norm(t.ast), l) for t, l in cfg_of(rd).control_deps(cfg_of(rd).node_for(st[0]), transitive=False) if t.kind == "test"]
         okr = deps == [("is_directory_structure == False", "F")] or deps == [("is_directory_structure", "T")] or deps == [("not is_directory_structure", "F")]
+        if not okr:
+            from .common import atomic_deps as _ad
+
+            ats = [a for t, l in cfg_of(rd).control_deps(cfg_of(rd).node_for(st[0]), transitive=False) if t.kind == "test" for a in _ad(t.ast, l)]
+            flagish = [(a, l) for a, l in ats if "structure" in a]
+            if not any((a.split(".")[-1] in ("is_directory_structure", "is_directory_structure == True") and l == "F") or (a.endswith("is_directory_structure == False") and l == "T") for a, l in flagish) and (flagish or not ats):
+                # the guard is spelled in a way this rule does not know (state object, helper): not evidence of a defect
+                if not any(a.split(".")[-1] == "is_directory_structure" and l == "T" for a, l in flagish):
+                    raise AnalysisError(f"{rd.loc(st[0])}: the condition under which the reader stores the structure digest ({ats}) is not in a form this rule reads")
+                okr = True
     r6.check(okr, rd, st[0] if st else rd.node, "the reader does not assign the text under <structure> to the structure digest of the matching entry", construct="reader structure")
 
     # ---- rules shared with other properties (same mechanism, same rule, reported under every property it can break)
